@@ -150,7 +150,12 @@ func (p *faultPlan) decide(c *uni.Call) uni.Action {
 		p.perCmd[c.Cmd]++
 		return uni.Action{Kind: uni.RegionErr, RegErr: re}
 	}
-	if int((h>>8)%100) < p.topo && p.nTopo < p.maxTopo {
+	tp := p.topo
+	if cleanup && len(ks) > 1 && tp > 0 {
+		// a clean-up request that carries several keys: cutting it in two is what the re-split paths need
+		tp = 2*tp + 20
+	}
+	if int((h>>8)%100) < tp && p.nTopo < p.maxTopo {
 		p.nTopo++
 		u, mock := p.u, p.mock
 		sel := h >> 24
